@@ -1,15 +1,15 @@
-// Command deploymc runs the E4 explicit-state search over the real advanced Deployment controller.
+// Command e3c09v is the private driver of the C09 stage-1 (validating webhook) small-scope check.
 //
-//	deploymc C17                    run the check (VERIF_TIER=quick|thorough)
-//	deploymc C17 --replay <file>    re-execute the one case recorded in a violation file, without the explorer
+//	e3 <ID>                    run the check (VERIF_TIER=quick|thorough)
+//	e3 <ID> --replay <file>    re-execute the one case recorded in a violation file, without the enumerator
 package main
 
 import (
 	"encoding/json"
 	"fmt"
 	"os"
+	"runtime/pprof"
 
-	"verifharness/checks/c17"
 	"verifharness/lib"
 )
 
@@ -18,11 +18,11 @@ type check struct {
 	replay func(*lib.Report, json.RawMessage)
 }
 
-var checks = map[string]check{"C17": {c17.Run, c17.Replay}}
+var checks = map[string]check{}
 
 func main() {
 	if len(os.Args) < 2 {
-		fmt.Fprintln(os.Stderr, "usage: deploymc <property> [--replay <file>]")
+		fmt.Fprintln(os.Stderr, "usage: e3c09v <property> [--replay <file>]")
 		os.Exit(2)
 	}
 	c, ok := checks[os.Args[1]]
@@ -52,6 +52,16 @@ func main() {
 		}
 		fmt.Printf("REPLAY verdict: recorded signature %s NOT reproduced\n", f.Signature)
 		os.Exit(0)
+	}
+	if f := os.Getenv("VERIF_PPROF"); f != "" {
+		out, err := os.Create(f)
+		if err == nil {
+			_ = pprof.StartCPUProfile(out)
+			c.run(r)
+			pprof.StopCPUProfile()
+			_ = out.Close()
+			r.Finish()
+		}
 	}
 	c.run(r)
 	r.Finish()
